@@ -169,7 +169,7 @@ def write_item(e):
         if x.op in ("sym", "ite"):
             yield x
             return
-        if x.op in ("or", "and", "xor", "shl", "shr", "cast"):
+        if x.op in ("or", "and", "xor", "shl", "shr", "cast", "sext"):
             for a in x.args:
                 if isinstance(a, E):
                     yield from atoms_of(a)
